@@ -152,6 +152,9 @@ class Live:
         self._leaf_ids = []
         self._height = 0
         self.loaded = False     # True once the tree was (re)built from a state
+        self.arm = None         # callable(bool): arm/disarm probes around the real call only
+        self.last_exc = None
+        self.keywrap = None     # callable(key) -> key object handed to the container (HookKey)
 
     def close(self):
         if self._ns is not None:
@@ -173,9 +176,14 @@ class Live:
         if isinstance(arg, dict):
             ks = self.sorted_keys()
             if not ks:
-                return F.dk(self.fam, F.default_token(self.fam, self.ktype))
+                return self._kw(F.dk(self.fam, F.default_token(self.fam, self.ktype)))
             return ks[arg['@'] % len(ks)]
-        return F.dk(self.fam, arg)
+        return self._kw(F.dk(self.fam, arg))
+
+    def _kw(self, k):
+        if self.keywrap is not None and k is not None:
+            return self.keywrap(k)
+        return k
 
     def V(self, tok):
         return F.dv(self.fam, tok)
@@ -231,6 +239,7 @@ class Live:
         name = op[0]
         t, m = self.t, self.model
         call = None      # zero-arg callable on the real container
+        post = None      # applied to the result outside the armed region (mode 'some')
         want = None
         mode = 'eq'
         if name in SINGLE_KEY and len(op) > 1:
@@ -266,9 +275,9 @@ class Live:
             upd = lambda: m.pop(k, None)
         elif name == 'popitem':
             before = dict(m)
+            call = lambda: t.popitem()
 
-            def call():
-                r = t.popitem()
+            def post(r):
                 ok = (isinstance(r, tuple) and len(r) == 2 and r[0] in before
                       and before[r[0]] == r[1])
                 if ok:
@@ -351,9 +360,9 @@ class Live:
             upd = lambda: m.pop(k, None)
         elif name == 'pop':
             before = set(m)
+            call = lambda: t.pop()
 
-            def call():
-                r = t.pop()
+            def post(r):
                 ok = r in before
                 if ok:
                     m.pop(r)
@@ -404,10 +413,19 @@ class Live:
             upd = None
         else:
             raise ValueError('unknown op %r for %s' % (op, self.kind))
+        arm = self.arm
         try:
+            if arm is not None:
+                arm(True)
             got = ('ok', call())
         except Exception as e:       # noqa: the class is the observation
             got = ('exc', type(e))
+            self.last_exc = e
+        finally:
+            if arm is not None:
+                arm(False)
+        if post is not None and got[0] == 'ok':
+            got = ('ok', post(got[1]))
         if upd is not None and want[0] == 'ok':
             upd()
         return got, want, mode
